@@ -358,6 +358,33 @@ func checkC04(p *Prog, r *Report) {
 			})
 		}
 	}
+	// ---- DELETE-SPARES-LISTED ----
+	r.Rule("C04/DELETE-SPARES-LISTED", "the --delete pass never unlinks a path that is in the file list (it would be absent until, and unless, the transfer re-creates it): every RemoveAll/Remove inside the receiver's WalkDir callbacks is dominated by findInFileList(list, path) == false — the same clause as C09/REMOVE-GATES [not-in-list], here as a necessary condition of 'old or new content at every instant'", 1)
+	if find := p.Func(pkgReceiver, "", "findInFileList"); find == nil {
+		r.Unk("C04/DELETE-SPARES-LISTED", "list lookup", "-", "findInFileList not found: the delete pass decides membership differently now, re-read it")
+	} else {
+		n := 0
+		for _, fn := range recvFuncs {
+			if _, inWalk := walkContext(g, fn, 0); !inWalk {
+				continue
+			}
+			allCalls(fn, func(c ssa.CallInstruction) {
+				nm := calleeName(c)
+				if nm != "(*os.Root).RemoveAll" && nm != "(*os.Root).Remove" {
+					return
+				}
+				n++
+				ok := HasFact(c, false, func(v ssa.Value) bool {
+					call, isC := v.(*ssa.Call)
+					return isC && call.Common().StaticCallee() == find
+				})
+				r.Cond(ok, "C04/DELETE-SPARES-LISTED", funcKey(fn)+" → "+nm, p.Pos(instrPos(c)), "an entry is removed by the delete walk without a negative lookup in the file list: a listed path can disappear before its (possibly unchanged) content is received again")
+			})
+		}
+		if n == 0 {
+			r.OK("C04/DELETE-SPARES-LISTED", "no removal in a walk callback", "-", "")
+		}
+	}
 	r.Trust("rename(2) atomicity inside renameio.CloseAtomicallyReplace and renameio.SymlinkRoot; os.Root.MkdirAll/mknodat create empty objects (absent→present, never partial)")
 	r.Assume("a change between directory and non-directory cannot be made atomic with rename(2): at those two sites the path is absent between the unlink and the creation of its replacement, which the rule accepts")
 	r.Uncovered("temp-file removal when the session returns while the receiver goroutine is still blocked on the connection (deferred Cleanup runs only when that goroutine unblocks); kernel/renameio behaviour")
